@@ -17,6 +17,7 @@ import (
 const c17decl = `(struct T [(field A: int64 e:0)])
 (struct S [(field X: int64 e:0) (field N: string e:1) (field F: float64 e:2) (field B: bool e:3) (field L: ([]string) e:4) (field P: (* S) e:5) (field O: T e:6)])
 (def t1 (T A: 1))
+(def arr [1 2])
 (def c (S X: 1))
 (def pc0 (& c))
 (def other (S X: 2))
@@ -84,6 +85,14 @@ func c17ops() []c17opT {
 		c17opT{"e1-hset", `(hset e1 big: true)`, false}, c17opT{"e1-infix", `{e1.big = true}`, false},
 		c17opT{"e1-through-pointer", `(hset (* (& e1)) big: true)`, false})
 	ops = append(ops, c17opT{"give-O", `(hset c O: (T A: 3))`, true})
+	// an index expression (a live selector into an array) written as a field value, and later legal writes to that array
+	ops = append(ops, c17opT{"selector-value/hset", `(hset c X: (arrayidx arr [0]))`, false},
+		c17opT{"selector-value/ctor", `(def c (S X: (arrayidx arr [0])))`, false},
+		c17opT{"selector-value/infix", `{c.X = arr[1]}`, false},
+		c17opT{"selector-value/msgmap", `(def c (msgmap (quote S) [(quote X) (arrayidx arr [0])]))`, false},
+		c17opT{"array-element/string", `(aset arr 0 "oops")`, false},
+		c17opT{"array-element/float-infix", `{arr[0] = 2.5}`, false},
+		c17opT{"array-element/int", `(aset arr 0 9)`, false})
 	// a pointer taken before any redeclaration, used afterwards
 	ops = append(ops, c17opT{"derefset-oldptr/newdecl-shaped", `(derefSet pc0 (S X: "four" N: "n"))`, false},
 		c17opT{"derefset-oldptr/olddecl-shaped", `(derefSet pc0 (S X: 4 N: "n"))`, false},
@@ -176,6 +185,12 @@ func c17inspect(env *zygo.Zlisp, version string) string {
 		val, err := h.HashGet(nil, k)
 		if err != nil {
 			return "field " + name + " is listed but has no value"
+		}
+		if sel, isSel := val.(zygo.Selector); isSel {
+			// a live selector stored in the field: what a reader of the field gets is whatever it selects now
+			if rhs, e := sel.RHS(env); e == nil && rhs != nil {
+				val = rhs
+			}
 		}
 		got := c17kindOf(val)
 		if got == "nil" {
